@@ -17,6 +17,7 @@
 #include <signal.h>
 #include <unistd.h>
 #include <sys/wait.h>
+#include <sys/prctl.h>
 #include <gmp.h>
 #include <intbig.h>
 #include <quaternion.h>
@@ -136,6 +137,23 @@ put_lat(const quat_lattice_t *l)
     put_mat4(&l->basis);
 }
 
+/* condition used as a membership oracle for the enumeration ("is exactly this vector tested and within the bound?"):
+   true iff vec == (params[0], params[1]); the element is (1; v0 v1 0 0) */
+static int
+cond_eq(quat_alg_elem_t *elem, const ibz_vec_2_t *vec, const void *params)
+{
+    const ibz_t *want = (const ibz_t *)params;
+    int res = (ibz_cmp(&((*vec)[0]), &want[0]) == 0) && (ibz_cmp(&((*vec)[1]), &want[1]) == 0);
+    if (res) {
+        ibz_t one, zero;
+        ibz_init(&one); ibz_init(&zero);
+        ibz_set(&one, 1); ibz_set(&zero, 0);
+        quat_alg_elem_copy_ibz(elem, &one, &((*vec)[0]), &((*vec)[1]), &zero, &zero);
+        ibz_finalize(&one); ibz_finalize(&zero);
+    }
+    return res;
+}
+
 /* ---------------------------------------------------------------- ops */
 static void
 do_op(void)
@@ -246,6 +264,23 @@ do_op(void)
             putsp();
             put_elem(&el);
         }
+    } else if (!strcmp(op, "d2.enumeq") && ntok == 12) {
+        /* d2.enumeq q tmc0 tmc1 B(4) bound maxtries v0 v1 -> found [elem]  (condition: vec == (v0,v1)) */
+        ibz_t want[2];
+        ibz_init(&want[0]); ibz_init(&want[1]);
+        geti(&q, tok[1]);
+        geti(&v2[0], tok[2]); geti(&v2[1], tok[3]);
+        get_mat2(&B2, 4);
+        geti(&c, tok[8]);
+        int maxtries = (int)strtol(tok[9], NULL, 16);
+        geti(&want[0], tok[10]); geti(&want[1], tok[11]);
+        int found = quat_dim2_lattice_qf_enumerate_short_vec(&el, cond_eq, want, &v2, &B2, &q, &c, maxtries);
+        printf("%d", found ? 1 : 0);
+        if (found) {
+            putsp();
+            put_elem(&el);
+        }
+        ibz_finalize(&want[0]); ibz_finalize(&want[1]);
     } else if (!strcmp(op, "d2.filter") && ntok == 11) {
         /* d2.filter B(4) t0 t1 qf dist_bound p max_tries -> found [elem] */
         get_mat2(&B2, 1);
@@ -428,6 +463,10 @@ main(void)
             fflush(stdout);
             pid_t pid = fork();
             if (pid == 0) {
+                /* never outlive the driver: die with the parent, and in any case after the alarm */
+                prctl(PR_SET_PDEATHSIG, SIGKILL);
+                if (getppid() == 1)
+                    _exit(0);
                 alarm(secs ? secs : 10);
                 tokenize(line, 2);
                 if (ntok == 0)
